@@ -15,7 +15,8 @@ from harness import core
 from harness.core import coqR, coq_list
 
 THEOREMS = ['C12_lse_shift', 'C12_G_score', 'C12_LN_score', 'C12_GKDE_score', 'C12_LNKDE_score', 'C12_GMIX_score',
-            'C12_G_grad', 'C12_LN_grad', 'C12_GKDE_grad', 'C12_LNKDE_grad', 'C12_GMIX_cell_blocks', 'C12_GMIX_grad', 'C12_permute_individuals', 'C12_var_two_forms', 'C12_centered_sum_zero']
+            'C12_G_grad', 'C12_LN_grad', 'C12_GKDE_grad', 'C12_LNKDE_grad', 'C12_GMIX_cell_blocks', 'C12_GMIX_grad', 'C12_permute_individuals', 'C12_var_two_forms', 'C12_centered_sum_zero',
+            'C12_order_pairs', 'C12_order_sensitivities', 'C12_argsort_inverse', 'C12_unpacking_refuted']
 HEADER = '''From Coq Require Import Reals Lra List.
 From Interval Require Import Tactic.
 From Chi Require Import Base.RSum Base.Score Base.Tie Model.Filters.
@@ -227,6 +228,9 @@ def ref_score(case, sim=None, obs=None):
 
 
 def oracle(case):
+    if case.get('type') == 'order':
+        from harness import filterorder
+        return filterorder.case(random.Random(case['seed']))[2]
     res = run_chi(case)
     ref = ref_score(case)
     if core.relerr(res['ll'], ref) > 1e-8:
@@ -277,6 +281,8 @@ def invariance(case, res):
 
 
 def key_of(case, what):
+    if case.get('type') == 'order':
+        return 'C12|time order'
     return 'C12|%s|%s' % (case['kind'], 'composed' if case['composed'] else 'single')
 
 
@@ -307,7 +313,30 @@ def run(ck):
     ck.cov['rule'] = ('five filter classes; 2-6 simulated individuals, 1-3 measured individuals, 1-2 observables, '
                       '1-3 time points, random missing values leaving >= 1 value per cell, random time orders, splits '
                       'into 1-3 composed sub-filters; per case the score (twice) and 4 random gradient entries are '
-                      'certified, and padding / permutation / re-ordering invariance is checked; distinct = distinct case')
+                      'certified, and padding / permutation / re-ordering invariance is checked; random nestings (depth <= 3) of '
+                      'composed filters over recording leaves, every level with an order of its own: scored pairs and '
+                      'order of the sensitivities compared exactly; distinct = distinct case')
+    # time-order bookkeeping through arbitrary nestings, with recording leaf filters (Model/FilterOrder.v)
+    from harness import filterorder
+    oexprs, opayload = [], {}
+    for j in range(ck.n(150, 1500)):
+        seed = ck.seed * 53 + j
+        try:
+            desc, expr, direct = filterorder.case(random.Random(seed))
+        except Exception as e:
+            desc, expr, direct = {'seed': seed}, None, 'chi raised %s: %s' % (type(e).__name__, e)
+        ck.count('nested time orders')
+        ck.case({'order': desc})
+        oc = {'type': 'order', 'seed': seed}
+        if direct:
+            ck.violation('C12|time order', direct, oc)
+            continue
+        oexprs.append(('o%d' % j, expr))
+        opayload['o%d' % j] = oc
+    obad = ck.exact('order', filterorder.HEADER, oexprs, shard=150)
+    if obad:
+        ck.settle('correspondence C12: Model/FilterOrder.v and chi differ on %s (first: %s)' % (obad[:5], opayload[obad[0]]),
+                  [opayload[b] for b in obad], oracle, None, key_of)
     ck.log('certifying %d filter cases' % len(cases))
     bad = ck.numeric('filters', HEADER, UNFOLD, cases, shard=4)
     wrng = random.Random(ck.seed + 5)
